@@ -71,6 +71,13 @@ class BoundMethod:
         self.defcls = defcls
 
 
+class PartialVal:
+    """functools.partial(func, *args, **kwargs) over interpreter values."""
+
+    def __init__(self, func, args, kwargs):
+        self.func, self.args, self.kwargs = func, list(args), dict(kwargs)
+
+
 class ModelMethod:
     """Method of a symbolic builtin value (bytes.hex, int.to_bytes...)."""
 
@@ -496,7 +503,7 @@ class Interp:
         """Call any callable value."""
         self.path.steps += 1
         stubs = self.cfg.get("stubs_map")
-        if stubs and isinstance(f, (types.FunctionType, types.BuiltinFunctionType)) and not self.is_interp_func(f):
+        if stubs and isinstance(f, (types.FunctionType, types.BuiltinFunctionType, type)) and (isinstance(f, type) or not self.is_interp_func(f)):
             try:
                 if f in stubs:
                     self.contracts_used.add(f"{getattr(f, '__module__', '')}:{getattr(f, '__qualname__', f)} -> stub")
@@ -510,6 +517,8 @@ class Interp:
             return self.models.call_builtin_method(self, f, args, kwargs)
         if isinstance(f, IFunc):
             return self.call_function(f, list(args), kwargs)
+        if isinstance(f, PartialVal):
+            return self.call(f.func, list(f.args) + list(args), dict(f.kwargs, **kwargs), frame, node)
         if isinstance(f, ModelMethod):
             return self.models.call_method(self, f.recv, f.name, args, kwargs)
         if type(f).__name__ == "_Unstubbed":
@@ -1028,7 +1037,8 @@ class Interp:
         frame.loop_ordinal += 1
         spec = self.loop_spec(frame, ordinal)
         it = self.eval(s.iter, frame)
-        if spec is not None:
+        if spec is not None and not isinstance(it, (list, tuple, set, frozenset, dict)):
+            # (a concrete python container is simply iterated: exact, no loop rule needed)
             return self.exec_loop_with_invariant(s, frame, spec, kind="for", iterable=it)
         n = 0
         for item in self.iterate(it, frame, s):
